@@ -132,6 +132,9 @@ func headerProtos(cs []gCond) []*v3routepb.HeaderMatcher {
 
 func (r *gRoute) build() *xdsresource.Route {
 	out := &xdsresource.Route{Timeout: time.Duration(r.TimeoutMs) * time.Millisecond}
+	// every route also carries a retry policy whose per-try timeout differs from the route's timeout: the routing step sets
+	// the call timeout to the ROUTE's timeout; the retry policy is the retry container's business (C17)
+	out.RetryPolicy = xdsresource.RetryPolicy{NumRetries: 2, PerTryTimeout: time.Duration(r.TimeoutMs/3+7) * time.Millisecond, CBErrorRate: 0.1}
 	switch r.Kind {
 	case "http":
 		out.Match = &xdsresource.HTTPRouteMatch{Path: r.Path, Prefix: r.Prefix, Headers: xdsresource.BuildMatchers(headerProtos(r.Conds))}
